@@ -284,6 +284,26 @@ def rule_r5(ctx) -> RuleResult:
                     else:
                         rr.ok(dotted, "pops down to the outermost list", {"loop": unparse(t)})
                     return rr
+    if isinstance(lp, ast.For) and isinstance(lp.iter, ast.Call) and unparse(lp.iter.func) == "range" and len(lp.iter.args) == 1 \
+            and isinstance(lp.iter.args[0], ast.Name):
+        # `for _ in range(depth): pop` -- where does depth come from?
+        var = lp.iter.args[0].id
+        for n in walk_no_nested(fn):
+            if isinstance(n, ast.For) and n is not lp and any(isinstance(x, ast.Name) and x.id == var for x in ast.walk(n.target)) \
+                    and isinstance(n.iter, ast.Call) and unparse(n.iter.func) == "enumerate" and n.iter.args:
+                src = unparse(n.iter.args[0])
+                stops_at_first = any(isinstance(b, ast.If) and any(isinstance(x, ast.Break) for x in b.body)
+                                     and P.kind_name(ctx, b.test.comparators[0]) == frozenset(["LIST"])
+                                     for b in n.body if isinstance(b, ast.If) and isinstance(b.test, ast.Compare) and len(b.test.comparators) == 1)
+                top_down = "reversed(" in src or "[::-1]" in src
+                if stops_at_first and top_down:
+                    rr.bad(Finding("C02.R5", P.PARSER, dotted, "for _ in range({})".format(var),
+                                   "the number of nodes popped is the distance from the top of the stack to the *first* list met on the way down, "
+                                   "i.e. the innermost one: after a nested item, following non-list content stays inside the enclosing list item",
+                                   lp.lineno))
+                    return rr
+                if stops_at_first and not top_down and "parser_stack" in src:
+                    raise AnalysisError("close_begline_lists: pop count derived from a bottom-up scan; the arithmetic is not decided (inconclusive)")
     raise AnalysisError("close_begline_lists: closing loop has an unrecognised shape `{}` (inconclusive)".format(
         unparse(lp.test) if isinstance(lp, ast.While) else unparse(lp.iter)))
 
